@@ -93,6 +93,13 @@ def _digest(b):
 
 
 # ------------------------------------------------------------------ VFS -----
+# The logical clock is sub-second: each mutating call advances it by TICK seconds and it
+# starts off the integer grid, so several consecutive events share one whole second while
+# staying strictly ordered (0.25 is exact in binary floating point).  st_mtime is a float,
+# as os.stat/os.fstat report it; code that rounds it to whole seconds is thereby exposed.
+TICK = 0.25
+
+
 class Inode(object):
     __slots__ = ('ino', 'data', 'mtime', 'tag', '_h')
 
@@ -116,7 +123,8 @@ class Inode(object):
 class StatResult(object):
     def __init__(self, inode, dev):
         self.st_mtime = inode.mtime
-        self.st_mtime_ns = inode.mtime * 10 ** 9
+        self.st_mtime = float(inode.mtime)
+        self.st_mtime_ns = int(round(inode.mtime * 10 ** 9))
         self.st_atime = self.st_ctime = inode.mtime
         self.st_atime_ns = self.st_ctime_ns = self.st_mtime_ns
         self.st_size = len(inode.data)
@@ -143,7 +151,7 @@ class VFS(object):
     def __init__(self, mounts=(), read_chunk=4096, aliases=None):
         self.files = {}          # path -> Inode
         self.dirs = set(['/'])
-        self.clock = 1
+        self.clock = 1.125       # seconds; never integer-aligned, see TICK
         self.next_ino = 1
         self.fds = {}            # int -> Handle
         self.next_fd = 3
@@ -159,7 +167,7 @@ class VFS(object):
 
     # -- helpers ------------------------------------------------------------
     def tick(self):
-        self.clock += 1
+        self.clock += TICK
         return self.clock
 
     def fsid(self, path):
@@ -689,11 +697,11 @@ class OsProxy(object):
         if isinstance(path, int):
             path = v.fds[path].path
         if ns is not None:
-            m = ns[1] // 10 ** 9
+            m = ns[1] / 1e9
         elif times is not None:
             m = times[1]
         else:
-            m = v.clock + 1
+            m = v.clock + TICK
         return v.op_utime(path, m)
 
     def fdopen(self, fd, mode='r', buffering=-1, encoding=None, **kw):
